@@ -749,6 +749,7 @@ def full_queries(n_nodes, pool):
 def light_queries(rng, n_nodes, pool):
     qs = [(p,) for p in PLAIN]
     fs = [(None, None, False)] + [rng.choice(FILTERS) + (rng.random() < 0.5,) for _ in range(2)]
+    fs.append(rng.choice([(0, None), (None, 1), (None, 0), (-1, None), (4, None), (None, 5)]) + (rng.random() < 0.5,))
     if rng.random() < 0.1:
         fs.append((rng.randint(0, 3), rng.randint(1, 4), False))
     for f in fs:
@@ -848,7 +849,7 @@ class Gen:
                 w = rng.choice([None, None, None, None, ONE]) if not bad else rng.choice([2, 8, 6])
             return ("addedge", self.edge(spec, present=rng.random() < 0.35), w, gen_meta(rng))
         if r < 30:
-            k = rng.randint(1, 4)
+            k = rng.choice([0, 1, 1, 2, 2, 3, 4])
             es = [self.edge(spec, present=rng.random() < 0.3) for _ in range(k)]
             mode = rng.random()
             ws = None
@@ -867,7 +868,7 @@ class Gen:
                         ws = ws[:-1]
                     elif b < 0.7:
                         ws = ws + [4]
-                    else:
+                    elif es:
                         es = es + [es[0]]
                         ws = ws + [4]
             mds = None
